@@ -103,4 +103,29 @@ def subSecretKeys (ops : CryptoOps P) (v s : Nat) (i j : Nat) : Nat × Nat :=
   let view := subViewSec ops v s i j
   let spend := subSpendSec ops v s i j
   (view, spend)
+/-! ### panic-explicit, byte-level constructors (added after the review of C10)
+
+`deriveSender` / `deriveReceiver` above are the SAME expression up to the names of the bound variables — as are the two Rust bodies
+(`random * &view` and `keys.view * &random` are the same `Mul` impl). What the point-level definitions leave out is that each `Mul`
+goes through the STORED bytes: `PrivateKey * &PublicKey` (key.rs:209-229) calls `other.point()` (decompress + `expect`, a panic site)
+and compresses the product into a new `PublicKey`, which the second multiplication decompresses again. -/
+
+/-- `PrivateKey * &PublicKey` on the stored bytes of the key: `none` = the panic of `PublicKey::point()`. The strict decoder `ops.dec`
+over-approximates the panic (dalek's `decompress` is permissive) and agrees with it on every encoding `ops.enc B` of a point. -/
+def mulKeyBytes (ops : CryptoOps P) (a : Nat) (key : Bytes) : Option Bytes :=
+  match ops.dec key with
+  | none => none
+  | some B => some (ops.enc (ops.smul a B))
+
+/-- `KeyGenerator::from_random(view, spend, random).rv` with both `Mul` steps and the intermediate `PublicKey` explicit -/
+def deriveSenderBytes (ops : CryptoOps P) (random : Nat) (view : Bytes) : Option Bytes :=
+  match mulKeyBytes ops random view with                          -- random * &view
+  | none => none
+  | some rV => mulKeyBytes ops (Gen.mulFactor % ops.l) rV         -- PrivateKey::from_scalar(MONERO_MUL_FACTOR.into()) * &(..)
+
+/-- `KeyGenerator::from_key(keys, random).rv`, likewise -/
+def deriveReceiverBytes (ops : CryptoOps P) (keysView : Nat) (random : Bytes) : Option Bytes :=
+  match mulKeyBytes ops keysView random with                      -- keys.view * &random
+  | none => none
+  | some vR => mulKeyBytes ops (Gen.mulFactor % ops.l) vR
 end Monero
